@@ -385,7 +385,10 @@ void Interpret::interp(ASTNode& n) {
             }
         }
     } catch (ApiException const &e) {
-        notify_formatted(true, e.what());
+        notify_formatted(true, "%s", e.what());
+    } catch (std::exception const & e) {
+        // E.g. a term outside of the logic or an unsupported request: report the problem instead of aborting
+        notify_formatted(true, "%s", e.what());
     }
 }
 
